@@ -124,7 +124,7 @@ var passTable = []passSpec{
 	{"C20", "hap", "NewSecuredDevice", 1, nil, "the pin it was given"},
 	{"C20", "event", "(*eventEmitter).Emit", 0, nil, "listeners receive the event that was emitted"},
 	{"C20", "", "ValidatePin", 0, []string{"compare"}, "the code that is compared with the table of trivial codes is the code that was given"},
-	{"C20", "util", "XHMURI", 0, []string{"Replace"}, "the setup payload carries the code it was given"},
+	{"C20", "util", "XHMURI", 0, []string{"Replace", "ReplaceAll"}, "the setup payload carries the code it was given"},
 	{"C02,C04", "hap/pair", "NewSetupServerSession", 1, []string{"ComputeVerifier"}, "the verifier is computed from the setup code it was given"},
 }
 
